@@ -58,7 +58,7 @@ func cmdMemConc(args []string) error {
 		runtime.GOMAXPROCS(procs[i%len(procs)])
 		fs, _ := memfs.NewFilespace()
 		d := fsx.NewDict()
-		// static sources for copies (never rewritten) and some initial content
+		// a static source for copies (never rewritten) and some initial content
 		fs.WriteFile("src1", d.Bytes("x"), filesystem.DefaultUnixFileMode)
 		if r.Intn(2) == 0 {
 			fs.MkdirAll("d", filesystem.DefaultUnixDirMode)
@@ -109,6 +109,12 @@ func cmdMemConc(args []string) error {
 						op.Name = "copyfile"
 						op.Sq = p
 						op.Sp = []string{"src1"}
+						if lr.Intn(2) == 0 {
+							// a source that other goroutines write, stream-write and remove at the same time
+							if src := paths[lr.Intn(len(paths))]; strings.Join(src, "/") != strings.Join(p, "/") {
+								op.Sp = src
+							}
+						}
 						ev["p"] = op.Sp
 						ev["q"] = op.Sq
 					default:
@@ -121,7 +127,8 @@ func cmdMemConc(args []string) error {
 						d.Add(op.D, []byte(fmt.Sprintf("content-%d-%s", tok, strings.Repeat("z", lr.Intn(3000)))))
 						mu.Unlock()
 						ev["d"] = op.D
-						op.Chunk = 1000
+						op.Chunk = 700
+						op.Yield = true
 					}
 					ev["name"] = op.Name
 					mu.Lock()
